@@ -1302,7 +1302,12 @@ class TLSConnection(TLSRecordLayer):
             raise TLSIllegalParameterException("Server did not select PSK nor "
                                                "an (EC)DH group")
         if sr_kex:
-            sr_kex = sr_kex.server_share
+            sr_kex = getattr(sr_kex, "server_share", None)
+            if sr_kex is None:
+                for result in self._sendError(
+                        AlertDescription.decode_error,
+                        "Malformed key_share extension in ServerHello"):
+                    yield result
             self.ecdhCurve = sr_kex.group
             cl_key_share_ex = clientHello.getExtension(ExtensionType.key_share)
             cl_kex = next((i for i in cl_key_share_ex.client_shares
@@ -1320,6 +1325,12 @@ class TLSConnection(TLSRecordLayer):
         resuming = False
         if sr_psk:
             clPSK = clientHello.getExtension(ExtensionType.pre_shared_key)
+            if clPSK is None or sr_psk.selected is None or \
+                    sr_psk.selected >= len(clPSK.identities):
+                for result in self._sendError(
+                        AlertDescription.illegal_parameter,
+                        "Server selected PSK identity we did not offer"):
+                    yield result
             ident = clPSK.identities[sr_psk.selected]
             psk = [i[1] for i in settings.pskConfigs if i[0] == ident.identity]
             if psk:
